@@ -67,3 +67,16 @@ Theorem C19_objstack_in_bounds : forall o bs, oinv o ->
   length (sbytes (cur (oappend o bs))) <= scap (cur (oappend o bs)).
 Proof. intros o bs H. now destruct (oappend_keeps o bs H) as (_ & _ & _ & _ & B). Qed.
 Print Assumptions C19_objstack_in_bounds.
+
+(* the growth expressions regenerated from vlobject.c and objstack.c are the ones of the container models, and the new
+   length of a variable length object leaves room for what is about to be added *)
+Theorem C19_growth_is_the_models : forall len add : nat,
+  vlo_new_len_c (Z.of_nat len) (Z.of_nat add) = Z.of_nat (grow (len + add)) /\
+  os_new_seg_c (Z.of_nat len) (Z.of_nat add) (Z.of_nat os_default) =
+    Z.of_nat (Nat.max os_default ((len + add) + (len + add) / 2 + 1)).
+Proof. intros len add. split; [apply vlo_growth_is_the_models | apply os_growth_is_the_models]. Qed.
+Print Assumptions C19_growth_is_the_models.
+
+Theorem C19_vlo_growth_has_room : forall len add, (0 <= len -> 0 <= add -> len + add < vlo_new_len_c len add)%Z.
+Proof. exact vlo_growth_has_room. Qed.
+Print Assumptions C19_vlo_growth_has_room.
